@@ -1005,7 +1005,7 @@ class Interp(Engine):
             'logical_and': logical(s.and_), 'logical_or': logical(s.or_),
             'isclose': Builtin('np.isclose', isclose), 'allclose': Builtin('np.allclose', allclose),
             # [A] np.result_type on (dtype, scalar type) pairs = join in the 4-point lattice bool < int < float < complex
-            'result_type': Builtin('np.result_type', lambda a, k: s.minmax(list(a), 'max')),
+            'result_type': Builtin('np.result_type', lambda a, k: s.minmax([TypeTag(x.dtype) if hasattr(x, 'dtype') and isinstance(getattr(x, 'dtype'), str) else x for x in a], 'max')),
             'min': Builtin('np.min', npmin), 'max': Builtin('np.max', npmax),
             'all': Builtin('np.all', lambda a, k: s.np_all(a[0])), 'any': Builtin('np.any', lambda a, k: s.np_any(a[0])),
             'floor': un(s.floor), 'ceil': un(s.ceil), 'abs': un(s.absv), 'absolute': un(s.absv),
@@ -1021,7 +1021,9 @@ class Interp(Engine):
             'ndarray': TypeTag('ndarray'), 'pi': PI, 'cos': Builtin('cos', lambda a, k: s.trig(a[0], 'cos')),
             'sin': Builtin('sin', lambda a, k: s.trig(a[0], 'sin')), 'dot': Builtin('np.dot', dot),
             'linspace': Builtin('np.linspace', linspace), 'zeros': Builtin('np.zeros', zeros),
-            'sum': Builtin('np.sum', npsum), 'float64': TypeTag('float'), 'newaxis': None, 'nan': 'NAN',
+            'sum': Builtin('np.sum', npsum), 'float64': TypeTag('float'),
+            # [A] the dtype lattice has kinds only, no widths: float32 is 'a floating type' (floats are reals in the encoding anyway)
+            'float32': TypeTag('float'), 'newaxis': None, 'nan': 'NAN',
             'int64': TypeTag('int'), 'bool_': TypeTag('bool'), 'complex128': TypeTag('complex'),
             'shape': Builtin('np.shape', lambda a, k: s.np_shape(a[0])),
         }
